@@ -58,6 +58,9 @@ func (l *lexer) load(input io.Reader) error {
 
 	// discard byte order mark, if present
 	firstCh, _, err := l.reader.ReadRune()
+	if err == io.EOF {
+		return nil // an empty input has no tokens; that is not an error
+	}
 	if err != nil {
 		return err
 	}
